@@ -271,3 +271,24 @@ package measurements
 //@ func zeroMinimumMeasurement
 //@   establishes[C15,C18] result
 //@   ensures[C15,C18] empty: result != nil && fresh(result) && result.value == 0.0
+
+// Update applies a caller-supplied function to the current value (A8: the function touches nothing).
+//@ func (*SingleMeasurement).Update
+//@   ensures[C18] applies_once: ncalls("funcvalue:param#0") == 1 && callarg("funcvalue:param#0", 0, 0) == old(m.value) && m.value == callres("funcvalue:param#0", 0, 0)
+//@   owns[C17]
+//@ func (*ExponentialAverageMeasurement).Update
+//@   ensures[C18] applies_once: ncalls("funcvalue:param#0") == 1 && callarg("funcvalue:param#0", 0, 0) == old(m.value) && m.value == callres("funcvalue:param#0", 0, 0)
+//@   ensures[C18] rest_kept: m.sum == old(m.sum) && m.count == old(m.count)
+//@   owns[C17]
+//@ func (*SimpleMovingVariance).Update
+//@   maintains m
+//@   ensures[C18] applies_once: ncalls("funcvalue:param#0") == 1 && callarg("funcvalue:param#0", 0, 0) == m.variance.value && m.stdev == callres("funcvalue:param#0", 0, 0)
+//@   owns[C17]
+
+//@ func (*WindowlessMovingPercentile).Add
+//@   ensures[C18] delegates: ncalls("(*measurements.WindowlessMovingPercentile).add") == 1 && callarg("(*measurements.WindowlessMovingPercentile).add", 0, 0) == value && ret0 == callres("(*measurements.WindowlessMovingPercentile).add", 0, 0) && ret1 == callres("(*measurements.WindowlessMovingPercentile).add", 0, 1) && calledUnder("(*measurements.WindowlessMovingPercentile).add", 0, m.mu)
+//@   owns[C17]
+//@ func (*WindowlessMovingPercentile).Get
+//@   ensures[C18] value: result == m.value
+//@   assigns nothing
+//@   owns[C17]
